@@ -2,13 +2,28 @@
    Only theorem statements here; proofs are in proofs/. *)
 From Coq Require Import List Bool Arith.
 Import ListNotations.
-Require Import Kinds Regex Grammar RefSem NFA Stub Table Automaton Nesting Bisim TableFacts C02Lemmas Pipeline.
+Require Import Kinds Regex Grammar RefSem NFA Stub Table Automaton Nesting Bisim TableFacts C02Lemmas Pipeline LanguageLink LanguageStub.
 
 (* the regenerated table, read as an automaton over line kinds (guards = nondeterministic choice),
    accepts exactly the words of the reference semantics of the regenerated grammar: all lengths *)
 Theorem C02_language_nfa : forall w, runN Table.table [Table.start_state] w = runR G w.
 Proof. exact nfa_language_eq. Qed.
 Print Assumptions C02_language_nfa.
+
+(* the interpreter itself -- Parser.parse over the regenerated table, with its token queue, its
+   look-ahead methods re-queuing what they read, error collection and the eleven-error cap --
+   accepts a sequence of line kinds (the scanner's lines; the end of file follows them) exactly
+   when that sequence is a sentence of the regenerated grammar: every length, no bound.
+   Chain: interpreter = deterministic guarded machine (stub_accepts_dacc) = nondeterministic view
+   (det_language: the look-ahead hints are exact, by verified product-closure certificates)
+   = reference semantics of gherkin.berp (nfa_language_eq: verified bisimulation certificate). *)
+Theorem C02_language : forall w, Forall (fun k => k <> KEOF) w -> Stub.accepts w = runR G (w ++ [KEOF]).
+Proof. exact stub_language. Qed.
+Print Assumptions C02_language.
+Example C02_language_nonvacuous :
+  Stub.accepts [KTagLine; KFeatureLine; KOther; KTagLine; KComment; KTagLine; KScenarioLine; KStepLine; KDocStringSeparator; KFeatureLine; KDocStringSeparator; KTagLine; KEmpty; KExamplesLine; KTableRow] = true
+  /\ Stub.accepts [KFeatureLine; KTagLine; KComment; KStepLine] = false.
+Proof. vm_compute. split; reflexivity. Qed.
 
 (* every normally-returning run of the kind-level interpreter (queue, look-ahead, error modes
    included) reports to the builder a derivation of the grammar *)
